@@ -283,4 +283,4 @@ def run(F, rep):
     if not getattr(rep, 'nested', False):
         import core
         import c03
-        c03.run(F, core.Borrowed(rep, only={'C03.F1'}))
+        core.borrow(F, rep, c03, only={'C03.F1'})
